@@ -227,7 +227,17 @@ def validate(trace_path, name):
     return ok, rej or inv or ('TLC error' if not ok else None), m
 
 
+_mcp_cache = {}
+
+
 def mcp_check(tier, seed):
+    key = (tier, seed)
+    if key not in _mcp_cache:
+        _mcp_cache[key] = _mcp_check(tier, seed)
+    return _mcp_cache[key]
+
+
+def _mcp_check(tier, seed):
     common.build_cli()
     root = tempfile.mkdtemp(prefix='cgtv_mcp_', dir=workdir('mcp'))
     findings = []
@@ -271,12 +281,54 @@ def mcp_check(tier, seed):
             if n.startswith('explain_') and n != 'explain_missing' and k != 'result':
                 findings.append({'prop': 'C20', 'kind': 'explain_covers', 'case': 0, 'input': json.dumps(cls[n])[:2000], 'data': {},
                                  'detail': f'calculate_report lists this disposal but explain_matching cannot explain it: {json.dumps(resp[rid])[:300]}'})
-        # explain_matching agrees with calculate_report on every listed disposal
+        # explain_matching agrees with calculate_report / the CLI on every listed disposal (C17: same figures,
+        # in full or rounded to pence with midpoints away from zero)
         rc, so, _ = run_cli(os.path.join(root, 'ref'), os.path.join(root, 'ref', 'home'), ['report', '--format', 'json', 'g1.cgt'])
         rep = json.loads(so)
         listed = [(d['date'], d['ticker']) for y in rep['tax_years'] for d in y['disposals']]
         if sorted(listed) != sorted((d, t.upper()) for d, t in DISPOSALS):
             raise ToolError(f'reference ledger lists disposals {listed}')
+        from decimal import Decimal, ROUND_HALF_UP
+        pence = lambda x: Decimal(x).quantize(Decimal('0.01'), rounding=ROUND_HALF_UP)
+        for n, (ev, resp) in zip(solo, solos):
+            if not (n.startswith('explain_') and n[8:].isdigit()) or 2 not in resp or 'result' not in resp[2]:
+                continue
+            d, t = DISPOSALS[int(n[8:])]
+            disp = next(x for y in rep['tax_years'] for x in y['disposals'] if x['date'] == d and x['ticker'] == t.upper())
+            try:
+                ex = json.loads(resp[2]['result']['content'][0]['text'])
+                bad = []
+                if Decimal(ex['quantity']) != Decimal(disp['quantity']):
+                    bad.append(f'quantity {ex["quantity"]} vs {disp["quantity"]}')
+                if pence(ex['proceeds']) != pence(disp['proceeds']):
+                    bad.append(f'proceeds {ex["proceeds"]} vs {disp["proceeds"]}')
+                if pence(ex['total_gain_or_loss']) != pence(sum(Decimal(m['gain_or_loss']) for m in disp['matches'])) and \
+                   abs(Decimal(ex['total_gain_or_loss']) - sum(Decimal(m['gain_or_loss']) for m in disp['matches'])) > Decimal('0.01') * len(disp['matches']):
+                    bad.append(f'gain {ex["total_gain_or_loss"]} vs legs {[m["gain_or_loss"] for m in disp["matches"]]}')
+                if [m['rule'].replace(' ', '').replace('&', 'And') for m in ex['matches']] != [m['rule'].replace('Bed', 'Bed') for m in disp['matches']]:
+                    rules_ex = [m['rule'] for m in ex['matches']]
+                    rules_cli = [m['rule'] for m in disp['matches']]
+                    norm = lambda r: r.replace(' ', '').replace('&', 'And').lower()
+                    if [norm(r) for r in rules_ex] != [norm(r) for r in rules_cli]:
+                        bad.append(f'rules {rules_ex} vs {rules_cli}')
+                for me, mc in zip(ex['matches'], disp['matches']):
+                    if pence(me['allowable_cost']) != pence(mc['allowable_cost']) or Decimal(me['quantity']) != Decimal(mc['quantity']):
+                        bad.append(f'leg {me["rule"]}: {me["quantity"]} @ cost {me["allowable_cost"]} vs {mc["quantity"]} @ {mc["allowable_cost"]}')
+                if bad:
+                    findings.append({'prop': 'C17', 'kind': 'mcp_explain_figures', 'case': 0, 'input': G1, 'data': {},
+                                     'detail': f'explain_matching for {t} on {d} disagrees with the report: ' + '; '.join(bad)})
+            except Exception as e:
+                findings.append({'prop': 'C20', 'kind': 'explain_unreadable', 'case': 0, 'input': G1, 'data': {}, 'detail': f'explain_matching result for {t} on {d} cannot be read: {e}'})
+        # get_fx_rate returns the bundled HMRC rate of exactly that currency and month (C08)
+        for n, (ev, resp) in zip(solo, solos):
+            if n == 'fx' and 2 in resp and 'result' in resp[2]:
+                import re as _re
+                xml = open(os.path.join(common.REPO, 'crates/cgt-money/resources/rates/2024-01.xml')).read()
+                m_ = _re.search(r'<currencyCode>USD</currencyCode>\s*<rateNew>([0-9.]+)</rateNew>', xml)
+                got = json.loads(resp[2]['result']['content'][0]['text'])
+                if not m_ or Decimal(got['rate']) != Decimal(m_.group(1)) or got.get('period') != '2024-01' or got.get('currency') != 'USD':
+                    findings.append({'prop': 'C08', 'kind': 'mcp_fx_rate', 'case': 0, 'input': 'get_fx_rate usd 2024 1', 'data': {},
+                                     'detail': f'get_fx_rate returned {got}; the bundled file says {m_.group(1) if m_ else None}'})
         expect['initialize']['digest'] = 'init'
         # ---- play the scripts
         scripts = scripts_for(tier, seed, names)
